@@ -23,9 +23,15 @@ def impl_output(arg):
         return ''.join(it.output_lines)
     return call_impl(run)
 
+def impl_history(arg):
+    """several wrap calls one after the other in ONE process (a cache or any other state kept between
+    calls shows up as a call whose answer depends on the earlier ones)"""
+    return [impl_wrap(c) for c in arg]
+
 FUNCS = {
     1: ('pybtex.bibtex.utils.wrap', impl_wrap, ('T', 'S', 'N', 'S')),
     2: ('Interpreter.output/newline', impl_output, ('L', ('O', 'S'))),
+    3: ('history of wrap calls in one process', impl_history, ('L', ('T', 'S', 'N', 'S'))),
 }
 
 RULE = ('exhaustive: every string over {a, space} up to the length bound x widths 1..9 x indents of 0..3 spaces; '
@@ -41,10 +47,23 @@ PARTIAL = []
 def describe(fn, arg):
     if fn == 1:
         return {'text': S(arg[0]), 'width': arg[1], 'indent': S(arg[2])}
+    if fn == 3:
+        return {'calls': [{'text': S(c[0]), 'width': c[1], 'indent': S(c[2])} for c in arg]}
     return {'ops': [('write$', S(o[0])) if len(o) == 1 else 'newline$' for o in arg]}
 
 def nontrivial(fn, arg, out):
+    if fn == 3:
+        return any(o[0] == 0 and 10 in o[1] for o in out)
     return out[0] == 0 and 10 in out[1]
+
+def canon(fn, out):
+    if fn == 3:
+        return [canon_res(o) for o in out]
+    return canon_res(out)
+
+# non-whitespace characters a normalising or re-encoding implementation would alter: combining sequences
+# (not NFC), compatibility characters, Hangul jamo, a non-BMP character
+ODD = ['e\u0301', 'o\u0308', '\u2126', '\u212b', '\u212a', '\u1100\u1161', '\ufb01', '\u00df', '\U0001d11e', '\u0130', 'A\u030a']
 
 def gen(tier, rng):
     maxlen = 10 if tier == 'quick' else 13
@@ -60,7 +79,7 @@ def gen(tier, rng):
         words = []
         for _ in range(rng.randint(0, 14)):
             L = rng.choice([rng.randint(1, 12), w - 1, w, w + 1, rng.randint(1, 2 * w + 2)])
-            words.append(''.join(rng.choice('abcXYZ{}\\.,-~') for _ in range(max(0, L))))
+            words.append(''.join((rng.choice(ODD) if rng.random() < 0.03 else rng.choice('abcXYZ{}\\.,-~')) for _ in range(max(0, L))))
         seps = [''.join(rng.choice(WS if rng.random() < 0.3 else [' ']) for _ in range(rng.choice([1, 1, 1, 2, 3]))) for _ in words]
         s = ''.join(a + b for a, b in zip(words, seps))
         if rng.random() < 0.3:
@@ -76,6 +95,18 @@ def gen(tier, rng):
                     s = 'x' * max(a, 0) + ' ' + 'y' * max(b, 0) + ' ' + 'z' * c
                     yield ('boundary', 1, [s, w, '  '])
                     yield ('boundary', 1, [' ' + s + ' ', w, '  '])
+    # histories: the same text wrapped with different indents / widths, and unrelated texts in between
+    for i in range(400 if tier == 'quick' else 4000):
+        w = rng.choice([5, 9, 20, 79])
+        base = ' '.join('x' * rng.randint(1, w) for _ in range(rng.randint(2, 12)))
+        other = ' '.join('y' * rng.randint(1, w) for _ in range(rng.randint(2, 8)))
+        calls = []
+        for _ in range(rng.randint(2, 6)):
+            calls.append([rng.choice([base, base, other]), rng.choice([w, w, w + 1, 79]), rng.choice(['  ', '', ' ', '    ', '\t'])])
+        yield ('history', 3, calls)
+    yield ('history', 3, [['aaa bbb ccc ddd', 6, ''], ['aaa bbb ccc ddd', 6, '  '], ['aaa bbb ccc ddd', 6, '']])
+    for odd in ODD:
+        yield ('pinned', 1, [('ab ' + odd + ' cd ') * 12, 20, '  '])
     for i in range(300 if tier == 'quick' else 3000):
         ops = []
         for _ in range(rng.randint(1, 8)):
@@ -87,6 +118,12 @@ def gen(tier, rng):
 
 def oracle(fn, arg, out):
     """the property itself, on the implementation's output"""
+    if fn == 3:
+        for k, (c, o) in enumerate(zip(arg, out)):
+            m = oracle(1, c, o)
+            if m:
+                return 'call %d of the history: %s' % (k, m)
+        return None
     if fn != 1:
         return None
     if out[0] != 0:
